@@ -2997,6 +2997,16 @@ class StateEngine(object):
 
                     if state.get("End"):
                         handle_terminal_state(state_type, event, id)
+                        """
+                        When the (empty) Map state is the terminal state of a
+                        Branch or Iterator its result has now been collected,
+                        but neither handle_terminal_state nor the collection
+                        of results retains or acknowledges the event of a
+                        Map state, so acknowledge it here as is done for a
+                        Map state that has launched its iterations.
+                        """
+                        if id in self.event_dispatcher.unacknowledged_messages:
+                            self.event_dispatcher.acknowledge(id)
                     else:
                         error_type, error_message = self.change_state(
                             state_machine, state_type, state.get("Next"), event
